@@ -94,6 +94,8 @@ def component_twins(ctx: Ctx):
         for k in range(nx):
             w = 10.0 ** rng.randint(-9, 9)
             off = rng.choice([0.0, 1.0, -1.0, 1e3, -1e6]) * w
+            if rng.random() < 0.15:     # negative ranges whose bounds are in the ratio of the interval capacity (lb = 4 ub): expressions like
+                doms.append((-4.0 * w, -1.0 * w)); continue      # ub - lb / 4 vanish exactly there while (ub - lb) / 4 does not
             doms.append((off, off + w))
         unit = [(0.0, 1.0)] * nx
         mx = tuple(levels)
